@@ -1,4 +1,5 @@
 import Mochi.Model.Broker
+import Mochi.Lemmas.BrokerInv
 /-!
 # C11 — Receive Maximum flow control holds in both directions without leaking quota
 
@@ -37,5 +38,29 @@ theorem C11_pubcomp_leaks_counterexample :
                         inflight := [{ type := 6, id := 1 }] }
     let s : Server := { init {} with objs := (init {}).objs ++ [c] }
     (getObj (processPubcomp s 1 1).1 1).recvQuota = 2 := by decide
+
+end Mochi.Broker
+
+/-! ## All histories
+
+Both quotas stay within their maxima in every state the broker model can reach: a corollary of the
+well-formedness invariant `WF` (`Mochi/Lemmas/BrokerInv.lean`), proved by induction over `step`. -/
+namespace Mochi.Broker
+
+theorem C11_quotas_bounded_all_histories :
+    ∀ caps ops, OpsFresh (init caps) ops → ∀ c ∈ (run (init caps) ops).objs,
+      c.sendQuota ≤ c.maxSend ∧ c.recvQuota ≤ c.maxRecv :=
+  fun caps ops h c hc => ⟨((WF_run caps ops h).objs c hc).send_le, ((WF_run caps ops h).objs c hc).recv_le⟩
+
+/-- in the terms of `C11_quota_bounds` -/
+theorem C11_QuotaOK_all_histories (caps : Caps) (ops : List Op) (h : OpsFresh (init caps) ops) :
+    ∀ c ∈ (run (init caps) ops).objs, QuotaOK c :=
+  fun c hc => ⟨(C11_quotas_bounded_all_histories caps ops h c hc).2, (C11_quotas_bounded_all_histories caps ops h c hc).1⟩
+
+/-- non-vacuity: on the concrete history the subscriber (Receive Maximum 1) ends with send quota 0 of 1,
+    one deferred message in flight -/
+example : OpsFresh (init {}) demoHistory := by decide
+example : ((getObj (run (init {}) demoHistory) 1).sendQuota, (getObj (run (init {}) demoHistory) 1).maxSend,
+           (getObj (run (init {}) demoHistory) 1).inflight.length) = (0, 1, 1) := by decide
 
 end Mochi.Broker
